@@ -13,6 +13,8 @@ package main
 import (
 	"fmt"
 	"math/big"
+	"math/rand"
+	"strings"
 	"time"
 
 	"github.com/idena-network/idena-go/blockchain/types"
@@ -40,6 +42,10 @@ type pipeCase struct {
 	ZeroDna  int64    `json:"zeroAddressDna"`
 	Txs      []pipeTx `json:"txs"`
 	Pipeline bool     `json:"pipeline"` // marks the replay format of this part
+	// Contracts: instead of Txs, a generated history of Blocks blocks with real embedded contracts (chainfx contracts.go:
+	// deploy / fund / transfer / vote / terminate, and failing-then-succeeding contract transactions in one block)
+	Contracts bool `json:"contracts,omitempty"`
+	Blocks    int  `json:"blocks,omitempty"`
 }
 
 func badSigBytes(kind string, valid []byte) []byte {
@@ -64,7 +70,98 @@ func badSigBytes(kind string, valid []byte) []byte {
 
 var pipeMined, pipeRejected int
 
+// runContractCase: a history with real embedded contracts; per block, a balance may go down only
+//   - for a key-holder's account: if that key is the wire signer of a transaction of the block,
+//   - for an embedded contract (TimeLock / Multisig deployed by the history): if a transaction of the block addressed to
+//     it has a successful receipt — a failed transaction moves nothing but its signer's fee.
+func runContractCase(pc *pipeCase) (fails []dtx.Finding, evals int, err error) {
+	t0 := time.Unix(1700000000, 0)
+	w := chainfx.NewWorld(pc.Seed, 5, 3, t0)
+	r := rand.New(rand.NewSource(pc.Seed))
+	h, err := chainfx.Bootstrap(w, chainfx.HistoryOpts{Blocks: pc.Blocks, TxPerBlock: 2, Contracts: true, NoOnline: true}, r, false)
+	if err != nil {
+		return nil, 0, err
+	}
+	n := h.N
+	for b := 1; b <= pc.Blocks; b++ {
+		// the contracts known before the block (a contract deployed in this block cannot be debited before it exists)
+		type acc struct {
+			addr     common.Address
+			contract bool
+		}
+		var watch []acc
+		for _, a := range w.Addrs {
+			watch = append(watch, acc{a, false})
+		}
+		for _, c := range h.Contracts {
+			if c.Kind == "timelock" || c.Kind == "multisig" {
+				watch = append(watch, acc{c.Addr, true})
+			}
+		}
+		pre := map[common.Address]*big.Int{}
+		for _, a := range watch {
+			pre[a.addr] = new(big.Int).Set(n.App.State.GetBalance(a.addr))
+		}
+		blk, err := h.Step(b)
+		if err != nil {
+			return fails, evals, fmt.Errorf("block %d: %v", b, err)
+		}
+		evals++
+		signers := map[common.Address]bool{}
+		okTo := map[common.Address]bool{}
+		nFailed := 0
+		for _, tx := range blk.Body.Transactions {
+			if a, ok := dtx.WireSigner(tx); ok {
+				signers[a] = true
+			}
+			if tx.Type == types.CallContractTx || tx.Type == types.TerminateContractTx || tx.Type == types.DeployContractTx {
+				rc := n.Chain.GetReceipt(tx.Hash())
+				if rc != nil && rc.Success && tx.To != nil {
+					okTo[*tx.To] = true
+				}
+				if rc != nil && !rc.Success {
+					nFailed++
+					pipeFailedContractTxs++
+				}
+				pipeContractTxs++
+			}
+		}
+		for _, a := range watch {
+			if a.addr == n.Addr {
+				continue
+			}
+			post := n.App.State.GetBalance(a.addr)
+			if post.Cmp(pre[a.addr]) >= 0 {
+				continue
+			}
+			if a.contract && !okTo[a.addr] {
+				fails = append(fails, dtx.Finding{Sig: "C05:failed-tx-moved-funds", OpIdx: b,
+					Detail: fmt.Sprintf("block %d (%d transactions, %d failed contract transactions): embedded contract %s went from %s to %s although no transaction addressed to it succeeded in this block",
+						blk.Height(), len(blk.Body.Transactions), nFailed, a.addr.Hex(), pre[a.addr], post)})
+			}
+			if !a.contract && !signers[a.addr] {
+				fails = append(fails, dtx.Finding{Sig: "C05:debited-account-is-not-the-signer", OpIdx: b,
+					Detail: fmt.Sprintf("block %d: key %d signed no transaction of the block, balance %s -> %s", blk.Height(), w.Index(a.addr), pre[a.addr], post)})
+			}
+		}
+		if len(fails) > 0 {
+			break
+		}
+	}
+	for k, v := range h.Stats {
+		if strings.HasPrefix(k, "contract:out-of-gas-after-send") {
+			pipeTightPairs += v
+		}
+	}
+	return fails, evals, nil
+}
+
+var pipeContractTxs, pipeFailedContractTxs, pipeTightPairs int
+
 func runPipeCase(pc *pipeCase) (fails []dtx.Finding, evals int, err error) {
+	if pc.Contracts {
+		return runContractCase(pc)
+	}
 	t0 := time.Unix(1700000000, 0)
 	w := chainfx.NewWorld(pc.Seed, 4, 2, t0)
 	zero := common.Address{}
@@ -200,7 +297,38 @@ func runPipeCase(pc *pipeCase) (fails []dtx.Finding, evals int, err error) {
 	return fails, evals, nil
 }
 
+func runContractWorlds(c *hx.Ctx) error {
+	worlds := c.Scale(2, 16)
+	if c.Tier == "search" {
+		worlds = 4
+	}
+	for wi := 0; wi < worlds; wi++ {
+		pc := &pipeCase{Seed: c.Seed*1000 + 500 + int64(wi), Contracts: true, Blocks: 70, Pipeline: true}
+		fs, ev, err := runPipeCase(pc)
+		if err != nil {
+			return fmt.Errorf("contract world %d: %v", wi, err)
+		}
+		c.Rep.Evaluations += ev
+		c.Hit("pipeline:contract-worlds")
+		c.Rep.Coverage["pipeline_contract_txs_mined"] = pipeContractTxs
+		c.Rep.Coverage["pipeline_failed_contract_txs_mined"] = pipeFailedContractTxs
+		c.Rep.Coverage["pipeline_out_of_gas_after_send_then_success_offers"] = pipeTightPairs
+		seen := map[string]bool{}
+		for _, f := range fs {
+			if seen[f.Sig] {
+				continue
+			}
+			seen[f.Sig] = true
+			c.Fail(f.Sig, f.Detail, &pipeCase{Seed: pc.Seed, Contracts: true, Blocks: f.OpIdx, Pipeline: true})
+		}
+	}
+	return nil
+}
+
 func runPipeline(c *hx.Ctx) error {
+	if err := runContractWorlds(c); err != nil {
+		return err
+	}
 	worlds := c.Scale(3, 30)
 	if c.Tier == "search" {
 		worlds = 6
